@@ -1,6 +1,7 @@
 //! An intrusive double linked list of data
 
 use core::{
+    cell::UnsafeCell,
     marker::PhantomPinned,
     ops::{Deref, DerefMut},
     ptr::NonNull,
@@ -13,8 +14,15 @@ pub struct ListNode<T> {
     prev: Option<NonNull<ListNode<T>>>,
     /// The next node in the list. `None` if there is no previous node.
     next: Option<NonNull<ListNode<T>>>,
-    /// The data which is associated to this list item
-    data: T,
+    /// The data which is associated to this list item.
+    ///
+    /// A queued node is written by whoever holds the lock of the primitive,
+    /// e.g. a thread which notifies the waiter. The `UnsafeCell` hides the
+    /// niches of `T`. Without it a type which wraps the future that embeds
+    /// this node (`Option<Future>`, `Fuse<Future>`, a `Stream` with an optional
+    /// receive future) could store its discriminant inside those bytes, and
+    /// would read them without holding the lock.
+    data: UnsafeCell<T>,
     /// Prevents `ListNode`s from being `Unpin`. They may never be moved, since
     /// the list semantics require addresses to be stable.
     _pin: PhantomPinned,
@@ -26,7 +34,7 @@ impl<T> ListNode<T> {
         ListNode::<T> {
             prev: None,
             next: None,
-            data,
+            data: UnsafeCell::new(data),
             _pin: PhantomPinned,
         }
     }
@@ -36,13 +44,15 @@ impl<T> Deref for ListNode<T> {
     type Target = T;
 
     fn deref(&self) -> &T {
-        &self.data
+        // Safety: Shared access to the node is only handed out by the owner
+        // of the node or while the lock of the list is held
+        unsafe { &*self.data.get() }
     }
 }
 
 impl<T> DerefMut for ListNode<T> {
     fn deref_mut(&mut self) -> &mut T {
-        &mut self.data
+        self.data.get_mut()
     }
 }
 
